@@ -77,15 +77,21 @@ def stamps(rng, n, cls):
     return t
 
 
-def make_traj(rng, n, cls, mode, stamped=True):
+def make_traj(rng, n, cls, mode, stamped=True, twin=False):
+    """twin=True: returns (object, identically built twin) - the twin serves as the record of
+    what the writer was given, so that the object itself keeps its (partial) cache state"""
     from evo.core.trajectory import PosePath3D, PoseTrajectory3D
     p = values(rng, (n, 3), cls if cls != "epoch" else "random17")
     q = unit_quats(rng, n)
     t = stamps(rng, n, cls)
-    if mode == "xyzq":
-        return PoseTrajectory3D(p.copy(), q.copy(), t.copy()) if stamped else PosePath3D(p.copy(), q.copy())
-    poses = [rm.se3(rm.rot_from_quat_wxyz(qq), pp) for qq, pp in zip(q, p)]
-    return PoseTrajectory3D(poses_se3=poses, timestamps=t.copy()) if stamped else PosePath3D(poses_se3=poses)
+
+    def build():
+        if mode == "xyzq":
+            return PoseTrajectory3D(p.copy(), q.copy(), t.copy()) if stamped else PosePath3D(p.copy(), q.copy())
+        poses = [rm.se3(rm.rot_from_quat_wxyz(qq), pp) for qq, pp in zip(q, p)]
+        return PoseTrajectory3D(poses_se3=poses, timestamps=t.copy()) if stamped else PosePath3D(poses_se3=poses)
+
+    return (build(), build()) if twin else build()
 
 
 def path_variant(rng, work, name):
@@ -109,14 +115,15 @@ def k_text(run, case, rng, work):
     nmax = {"quick": 200, "thorough": 3000}[run.tier]
     n = int(case.get("n") or (rng.integers(1, 6) if rng.random() < .3 else rng.integers(1, nmax + 1)))
     mode = "se3" if rng.random() < .5 else "xyzq"
-    tr = make_traj(rng, n, cls, mode, stamped=(fmt == "tum"))
+    tr, tw = make_traj(rng, n, cls, mode, stamped=(fmt == "tum"), twin=True)
+    gen.age(rng, tr)  # the written object has an arbitrary (partial) cache state
     wt, rt, label, special = path_variant(rng, work, "t.%s" % fmt)
-    given = {"p": np.array(tr.positions_xyz, dtype=float).copy()}
+    given = {"p": np.array(tw.positions_xyz, dtype=float).copy()}
     if fmt == "tum":
-        given["t"] = np.array(tr.timestamps, dtype=float).copy()
-        given["q"] = np.array(tr.orientations_quat_wxyz, dtype=float).copy()
+        given["t"] = np.array(tw.timestamps, dtype=float).copy()
+        given["q"] = np.array(tw.orientations_quat_wxyz, dtype=float).copy()
     else:
-        given["T"] = np.array([np.array(P, dtype=float)[:3, :] for P in tr.poses_se3])
+        given["T"] = np.array([np.array(P, dtype=float)[:3, :] for P in tw.poses_se3])
     writer = fi.write_tum_trajectory_file if fmt == "tum" else fi.write_kitti_poses_file
     reader = fi.read_tum_trajectory_file if fmt == "tum" else fi.read_kitti_poses_file
     if special == "handle":
